@@ -18,7 +18,7 @@ GUARD = 'GRAPHITE2_VERIF'
 NCPU = os.cpu_count() or 4
 
 SAN_FLAGS = {
-    'asan': ['-O1', '-g', '-fsanitize=address,undefined', '-fno-sanitize-recover=all', '-fno-omit-frame-pointer'],
+    'asan': ['-O0', '-g', '-fsanitize=address,undefined', '-fno-sanitize-recover=all', '-fno-omit-frame-pointer'],
     'tsan': ['-O1', '-g', '-fsanitize=thread', '-fno-omit-frame-pointer'],
     'plain': ['-O1', '-g'],
 }
